@@ -87,6 +87,10 @@ NONVACUITY = {
     "C11": ["NV.init_inv"], "C13": ["NV.unit_change_hyps", "NV.closeAgree_initial"],
     "C19": ["NV.shift_40"], "C20": ["NV.events_accepted", "NV.init_inv", "NV.param_hyps"],
 }
+# the demand total read by production / overproduction / orders is the row sum of the demand matrix (Properties/Coherence.lean)
+for _pid in ("C03", "C14", "C06"):
+    THEOREMS[_pid] = THEOREMS[_pid] + ["init_coherent", "step_coherent", "eventsPre_coherent", "coherent_reach"]
+    MODULES[_pid] = MODULES[_pid] + ["Boario.Properties.Coherence"]
 for _pid, _names in NONVACUITY.items():
     THEOREMS[_pid] = THEOREMS[_pid] + [n for n in _names if n not in THEOREMS[_pid]]
     MODULES[_pid] = MODULES[_pid] + ["Boario.Properties.NonVacuity"] + (["Boario.Properties.LoopThm"] if _pid in ("C01", "C10") else [])
@@ -104,7 +108,7 @@ STREAMS = {
     "C08": [("rebuild", 26, 300), ("multi", 10, 100), ("earlydt", 8, 80), ("finishing", 6, 60)],
     "C13": [("units", 24, 200)],
     "C18": [("shocked", 12, 120), ("shortage", 6, 60), ("eventfree", 6, 60)],
-    "C03": [("shortage", 24, 300), ("shocked", 16, 200)],
+    "C03": [("shortage", 18, 300), ("shocked", 12, 200), ("multi", 8, 80), ("finishing", 8, 80)],
     "C04": [("shocked", 20, 300), ("shortage", 12, 200), ("multi", 8, 100), ("rebuild", 6, 80), ("finishing", 8, 80)],
     "C05": [("shocked", 12, 200), ("shortage", 8, 150), ("crash", 10, 150), ("starve", 8, 60), ("mild", 8, 100)],
     "C06": [("shocked", 16, 300), ("shortage", 12, 200), ("mild", 14, 200), ("blackout", 4, 40)],
@@ -139,7 +143,7 @@ STEP_ORACLES.update({"C04": ["C04", "C08"], "C02": ["C02"], "C20": ["C20"], "C08
 # per-run oracles, construction obligations, paired-run oracles (names resolved in harness/runner.py)
 RUN_ORACLES = {"C01": ["c01"], "C05": ["c05_run"], "C07": ["c07_capital"], "C08": ["c08_init"], "C11": ["c11_run"]}
 INIT_OBLIGATIONS = {"C01": ["mkparams"], "C02": ["mkparams"], "C03": ["mkparams"], "C06": ["mkparams"], "C07": ["mkparams", "trackerinit"], "C08": ["trackerinit"], "C13": ["trackerinit"], "C18": ["mkparams"]}
-PAIRED = {"C01": ["long_loop_c01"], "C05": ["c05_loop"], "C10": ["c10_prefix", "long_loop"], "C11": ["c11_order"], "C13": ["c13_units"], "C18": ["c18_variants", "c18_orders"],
+PAIRED = {"C01": ["long_loop_c01"], "C05": ["c05_loop"], "C10": ["c10_prefix", "long_loop"], "C11": ["c11_order", "long_loop_c11"], "C13": ["c13_units"], "C18": ["c18_variants", "c18_orders"],
           "C19": ["c19_shift", "c19_late"], "C17": ["c17_determinism"]}
 
 # properties whose Lean side includes tables regenerated from the source on every run
